@@ -70,7 +70,11 @@ func (x *c16world) mutate(req *model.PushPullMessage) string {
 		if len(req.PushPullPacks) > 0 {
 			p = req.PushPullPacks[r.Intn(len(req.PushPullPacks))]
 		}
-		k := r.Intn(34)
+		k := r.Intn(37)
+		over := k >= 34 // three extra slots for the over-counted unit header
+		if over {
+			k = 21
+		}
 		if p == nil && k < 22 {
 			k = 22 + r.Intn(8)
 		}
@@ -177,7 +181,28 @@ func (x *c16world) mutate(req *model.PushPullMessage) string {
 				desc = append(desc, "ops=reordered")
 			}
 		case 21:
-			switch r.Intn(4) {
+			sub := r.Intn(5)
+			if over {
+				sub = 4
+			}
+			switch sub {
+			case 4:
+				// a well-numbered pack that opens with a transaction header announcing MORE
+				// operations than follow: nothing a replay (server rebuild, subscriber) can execute
+				if len(p.Operations) > 0 && p.Operations[0].ID != nil && p.CheckPoint != nil {
+					hdr := operations.NewTransactionOperation("hostile")
+					hdr.SetNumOfOps(len(p.Operations) + 1 + 2 + r.Intn(5))
+					hdr.SetID(proto.Clone(p.Operations[0].ID).(*model.OperationID))
+					for _, o := range p.Operations {
+						if o.ID != nil {
+							o.ID.Seq++
+							o.ID.Lamport++
+						}
+					}
+					p.Operations = append([]*model.Operation{hdr.ToModelOperation()}, p.Operations...)
+					p.CheckPoint.Cseq++
+					desc = append(desc, "ops=unit-header-overcount")
+				}
 			case 0:
 				for _, o := range p.Operations {
 					if o.ID != nil {
@@ -259,6 +284,13 @@ func (x *c16world) judge(what string, out bed.CallOutcome, refused bool, before 
 	}
 	if !x.w.idle() {
 		return c.Inconclusive("idle")
+	}
+	if strings.Contains(what, "unit-header-overcount") {
+		if refused {
+			c.Count("overcounted_unit_header_refused", 1)
+		} else {
+			c.Count("overcounted_unit_header_accepted", 1)
+		}
 	}
 	if refused {
 		after := x.snap()
